@@ -196,3 +196,36 @@ package cache
 //@   loop 1 iteration-ensures [key-grouped-under-its-node] calls(c.dispatcher.Get, at_head(keys[rangeindex + 1])) == 1 && (ret(Get, 1) ==> len(nodes[ret(Get, 0)]) == at_head(len(nodes[ret(Get, 0)])) + 1 && nodes[ret(Get, 0)][len(nodes[ret(Get, 0)]) - 1] == at_head(keys[rangeindex + 1])) && (!ret(Get, 1) ==> calls(Add) == 1)
 //@   loop 2 iteration-ensures [group-deleted-on-its-node] calls(n.DelCtx) == 1 && arg(n.DelCtx, 0) == ctx && arg(n.DelCtx, 1) == ks && (ret(DelCtx) != nil) == (calls(Add) == 1)
 //@   ensures [batch-verdict] len(keys) > 1 ==> result == ret(Err)
+
+// ---------------- construction (C06, C13) ----------------
+// A node gets the configured expiry / not-found expiry (defaults when unset), the 5 % deviation, the shared
+// single-flight barrier and the caller's not-found error.
+//@ func NewNode
+//@   prop C06
+//@   opaque newOptions, NewUnstable
+//@   let n = unbox(result, node)
+//@   ensures [fields] typeis(result, node) && n.rds == rds && n.barrier == barrier && n.stat == st && n.errNotFound == errNotFound && n.expire == ret(newOptions).Expire && n.notFoundExpire == ret(newOptions).NotFoundExpire
+//@   ensures [five-percent-deviation] calls(mathx.NewUnstable, 0.05) == 1 && n.unstableExpire == ret(mathx.NewUnstable)
+//@ func newOptions
+//@   prop C06
+//@   loop 1 invariant -1 <= rangeindex
+//@   ensures [positive-expiries] result.Expire > 0 && result.NotFoundExpire > 0
+//@   ensures [defaults-when-unset] len(opts) == 0 ==> result.Expire == defaultExpire && result.NotFoundExpire == defaultNotFoundExpire
+//@ func WithExpire$1
+//@   prop C06
+//@   requires o != nil
+//@   ensures o.Expire == expire
+//@ func WithNotFoundExpire$1
+//@   prop C06
+//@   requires o != nil
+//@   ensures o.NotFoundExpire == expire
+// New: one configured node => that node itself; several => a consistent-hash dispatcher over one cache node per
+// configured Redis, each added with ITS configured weight.
+//@ func New
+//@   prop C06, C13
+//@   opaque TotalWeights, Fatal, NewNode, NewRedis, NewConsistentHash, AddWithWeight
+//@   loop 1 invariant -1 <= rangeindex
+//@   loop 1 iteration-ensures [node-added-with-its-weight] calls(NewNode) == 1 && arg(NewNode, 0) == ret(NewRedis) && arg(NewNode, 1) == barrier && arg(NewNode, 3) == errNotFound && calls(dispatcher.AddWithWeight) == 1 && arg(dispatcher.AddWithWeight, 1) == ret(NewNode) && arg(dispatcher.AddWithWeight, 2) == at_head(c[rangeindex + 1]).Weight
+//@   ensures [single-node] len(c) == 1 ==> calls(NewNode) == 1 && result == ret(NewNode) && calls(NewConsistentHash) == 0
+//@   ensures [cluster-over-the-dispatcher] len(c) > 1 ==> typeis(result, cluster) && unbox(result, cluster).dispatcher == ret(hash.NewConsistentHash) && unbox(result, cluster).errNotFound == errNotFound
+//@   ensures [unconfigured-is-fatal] len(c) == 0 ==> calls(log.Fatal) >= 1
